@@ -53,6 +53,18 @@ POST_WORDS = ['post', 'rev', 'r']
 
 # ---------------------------------------------------------------- python side, canonical form
 
+def _guard(f):
+    """whatever the real code raises is its observable outcome (the comparison has to be defined on ALL strings)"""
+    def g(*a):
+        try:
+            return f(*a)
+        except Exception as ex:            # noqa: BLE001
+            return {'err': type(ex).__name__}
+    g.__name__ = f.__name__
+    return g
+
+
+@_guard
 def py_parse(s):
     p = sv.parse(s)
     if isinstance(p, sv.Version):
@@ -69,10 +81,12 @@ def py_parse(s):
     return {'kind': 'legacy', 'parts': list(p._key[1])}
 
 
+@_guard
 def py_str(s):
     return {'ok': str(sv.parse(s))}
 
 
+@_guard
 def py_cmp(a, b):
     pa, pb = sv.parse(a), sv.parse(b)
     lt, eq, gt, le, ge = pa < pb, pa == pb, pa > pb, pa <= pb, pa >= pb
@@ -244,7 +258,10 @@ def gen_string(rng):
 
 def respell(rng, s):
     """a PEP 440-equal respelling when s is valid (else s): used to get `eq` pairs"""
-    p = sv.parse(s)
+    try:
+        p = sv.parse(s)
+    except Exception:                      # noqa: BLE001  (the generator must not depend on the code under test behaving)
+        return s
     if not isinstance(p, sv.Version):
         return s
     t = str(p)
